@@ -113,3 +113,31 @@ CONTRACTS['distance_wei_floyd:paths'] = Contract(
              ('zero-hops-exactly-on-the-diagonal-and-for-infinite-entries', _N2 % "And(result(1)[v, w] >= 0, iff(result(1)[v, w] == 0, Or(v == w, result(0)[v, w] == INF)))"),
              ('diagonal-zero', "forall(lambda v: implies(inr(v, n0), And(result(0)[v, v] == 0, result(1)[v, v] == 0)))"),
              ('argument-untouched', "unchanged('adjacency')")])
+
+
+# ---- rout_efficiency (C03: "rout_efficiency reports exactly the mean inverse of these distances"), global part, transform=None ---------------
+# PREFIX contract (up to the local-efficiency loop): distance_wei_floyd is used through its proved contract; Erout = 1/SPL off the diagonal
+# (1/INF = 0 for unreachable pairs, IEEE), 0 on the diagonal, GErout = total / (n*n - n).  np.isnan is False in the real-number model.
+from engine.pyvc.run import callee_from_clauses as _cfc
+from engine.pyvc.core import Opaque as _Opaque
+
+
+def _setup_re(eng, st):
+    n = z3.Int('n0c')
+    st.pc.append(n >= 2)
+    st.ghost['n0'] = n
+    st.env['D'] = alloc(st, 2, z3.Const('G0', A2R), (n, n), REAL)
+    st.env['transform'] = None
+
+
+_FWC = CONTRACTS['distance_wei_floyd']
+_RCHD = lambda a, b: "Or(%s == %s, sdist(D, %s, %s) >= 1)" % (a, b, a, b)
+CONTRACTS['rout_efficiency#global'] = Contract(
+    'bct.algorithms.efficiency', 'rout_efficiency', ['D', 'transform'], setup=_setup_re, key='rout_efficiency#global', inf_division='ieee',
+    stop_at='Eloc = np.zeros((n,))',
+    requires=[(a, b.replace('adjacency', 'D')) for a, b in _FWC.requires],
+    ensures=[('pairwise-routing-efficiency-is-the-inverse-distance', _N2 % ("And(implies(And(v != w, " + _RCHD('v', 'w') + "), Erout[v, w] == 1 / wd(D, v, w)), implies(Not(" + _RCHD('v', 'w') + "), Erout[v, w] == 0), Erout[v, v] == 0)")),
+             ('global-routing-efficiency-is-the-mean-over-ordered-pairs', "GErout == tsum(Erout, n0) / (n0 * n0 - n0)"),
+             ('argument-untouched', "unchanged('D')")])
+CONTRACTS['rout_efficiency#global'].callees = {'distance_wei_floyd': _cfc('distance_wei_floyd', ['adjacency', 'transform'], list(_FWC.requires), [e for e in _FWC.ensures if e[0] != 'argument-untouched'],
+                                                                          [('mat', 'n0', 'n0'), ('mat', 'n0', 'n0'), ('imat', 'n0', 'n0')], ghosts={'n0': 'len(adjacency)'})}
